@@ -259,7 +259,7 @@ def gen_e2e_fixed():
 
 
 # ---------------------------------------------------------------- stream "interp": SF-core recipes with a target
-IW = dict(dual_fwd=0.2, fwd=0.45, nick=0.5, ref=0.3, zero_count=0.3, once=0.3, hidden_table=0.15, formula=0.3,
+IW = dict(case_twin=0.06, dual_fwd=0.2, fwd=0.45, nick=0.5, ref=0.3, zero_count=0.3, once=0.3, hidden_table=0.15, formula=0.3,
           randref=0.06)
 
 
